@@ -638,7 +638,9 @@ class HostBase:
                         return True
                 return False
         if isinstance(cont, SymStr) and isinstance(item, Const):
-            return self.ctx.choose(("substr_in", item.value, cont.id), [False, True])
+            key = ("substr_in", item.value, cont.id)
+            self.ctx.atom_info[key] = {"kind": "contains", "recv": cont, "item": item.value}
+            return self.ctx.choose(key, [False, True])
         if isinstance(cont, Sym):
             k = self.i.kind_of(cont)
             if k == "dict":
